@@ -133,6 +133,13 @@ META.update({
 "C03c":dict(breaks="C03: the face-2 node list of the BUBBLE parent element (Interpolants.make_parent_element_2d_with_bubble) computed with the plain element's formula flip(jj) - ii: right for degree 1-2, wrong node lists (including vertex 1) for degree >= 3 because interior base nodes were removed and the rest renumbered",
   needs="useBubbleElement=True AND element order >= 3: mid-edge node placement, edge integration and node sets from side sets all use faceNodes; parent-element shape functions (all of test_Interpolants) untouched"),
 })
+
+META.update({
+"C10c":dict(breaks="C10: in the stable branch of TensorMath._pow_relative_difference x = (lam_small - lam_big)/lam_small instead of /lam_big: same limit at coinciding eigenvalues, relative error (1-m)/2 x^2 otherwise; the primal pow_symm (hence the energy) is unchanged",
+  needs="J2 with kinematics 'seth hill' AND finite strain with principal values of C differing by 1 percent .. factor 1.5 AND a direction that shears the principal axes; the stress is wrong only with a plastic strain not coaxial with the deformation, the tangent already from the virgin state"),
+"C12c":dict(breaks="C12: the tie bias put on the other side of the comparison in the fac2 line only of eigen_sym33_non_unit (rm2xx2 < rm2yy2*tieBias): fac1 and fac2 come from different branches when rm2xx2/rm2yy2 is within 1e-8 of 1",
+  needs="a tensor whose deflated 2x2 problem has equal diagonal entries (measure zero for random or rotated input; 144 of the 15 624 integer tensors with entries -2..2, and the rational-rotation lattice point with eigenvalues -0.02, 0.01, 0.02): eigenvalues, ordering and orthonormality stay right, V diag(d) V^T != A"),
+})
 for pid in sys.argv[1:]:
     p='/verif/seeded/%s/meta.json'%pid
     if not os.path.exists(p): print('no meta for',pid); continue
